@@ -356,11 +356,13 @@ func (s *sys) Key() string {
 
 func main() {
 	run := evid.New("C24", "model_checking")
-	run.Rule = "E3: per (Fails, host list) configuration, BFS over all timelines of Failed(host), clock advances (T/2, T, T+1ns with T=FailTimeout) and observations (PassiveFilter.Run on the list, Passive.Resolve) on a real healthcheck.NewPassiveFilter + Passive with a manual clock; states deduplicated on the ages of the recorded failures (<= 2T) + the filter's internal unhealthy marks and retained failures; every observation is compared with the literal predicate of the statement evaluated over all recorded failure times. distinct = distinct (configuration, model state) pairs with at least one recorded failure younger than 2T."
+	run.Rule = "E3, two families of BFS searches on a real healthcheck.NewPassiveFilter + Passive with a manual clock. Phase 1, per (Fails, fixed host list): all timelines of Failed(host), clock advances (T/2, T, T+1ns with T=FailTimeout) and observations (PassiveFilter.Run on the list, Passive.Resolve). Phase 2, per (Fails, initial DNS answer, TTL): the list is a real DNS-backed hostlist.List built by hostlist.New (its net lookup and its clock.New() answered by the harness through the build overlay), and the timeline alphabet additionally sets the DNS record to each of {host sets, lookup error, empty answer}; TTL expiry happens through the same clock advances, so Passive.Resolve makes refreshes whose outcome is {same hosts, changed hosts, error, empty answer}. States are deduplicated on the ages of the recorded failures (<= 2T) + the filter's internal unhealthy marks and retained failures (+ phase 2: DNS record state, the hosts the list has, kind of the latest refresh, the list's published snapshot and refresh-trap age). Every observation is compared with the literal predicate of the statement evaluated over all recorded failure times; in phase 2 'the hosts the list has' is the latest successful non-empty answer the list has looked up (the model follows the lookups the implementation is observed to make). distinct = distinct (configuration, model state) pairs with at least one recorded failure younger than 2T (phase 2: or at least one refresh)."
 	run.Assume("small-scope: hosts {x,y} (thorough also {x,y,z}), Fails in 1..3, clock advances from {T/2, T, T+1ns}")
 	run.Assume("'within FailTimeout of a failure f' is read as the FailTimeout-long period ending at f (failures g with 0 <= t_f - t_g <= FailTimeout), the reading of the configuration documentation ('failed requests that must occur during the FailTimeout period') and the implementation's choice; the boundaries are inclusive as the statement words them ('no more than')")
 	run.Assume("when every host is filtered out the statement only demands a non-empty Resolve result; which hosts are returned is not checked")
 	run.Assume("the clock is monotone (time only advances)")
+	run.Assume("phase 2 small-scope: hosts {x,y} (thorough also {x,y,z}), DNS record states from a stated set of host sets plus lookup error and empty answer, TTL 7s or 12s with FailTimeout 10s (no sum of advances equals a TTL, so the refresh boundary 'exactly TTL ago' is not in the space), one list per system, sequential callers")
+	run.Assume("phase 2: 'the list has hosts' = the latest successful non-empty DNS answer the list has taken (hostlist.New: after a failed refresh the latest successful snapshot is used); an empty answer counts as a failed refresh; when the list refreshes is not prescribed (the model follows the observed lookups), only what it resolves to afterwards")
 
 	type cfg struct {
 		list, failable []string
@@ -406,9 +408,9 @@ func main() {
 	}
 	if run.Thorough() {
 		dcfgs = []dcfg{
-			{xy, "xy", []string{"xy", "x", "y", "err", "empty"}, 7 * time.Second, []int{1, 2, 3}, 7},
-			{xy, "x", []string{"x", "xy", "y", "err", "empty"}, 12 * time.Second, []int{1, 2, 3}, 7},
-			{[]string{"x", "y", "z"}, "xy", []string{"xy", "yz", "z", "err", "empty"}, 7 * time.Second, []int{1, 2}, 6},
+			{xy, "xy", []string{"xy", "x", "y", "err", "empty"}, 7 * time.Second, []int{1, 2, 3}, 8},
+			{xy, "x", []string{"x", "xy", "y", "err", "empty"}, 12 * time.Second, []int{1, 2, 3}, 8},
+			{[]string{"x", "y", "z"}, "xy", []string{"xy", "yz", "z", "err", "empty"}, 7 * time.Second, []int{1, 2}, 7},
 		}
 	}
 	for _, c := range dcfgs {
